@@ -17,10 +17,13 @@ def run(ctx, keep=lambda f: not f.startswith("derivative")):
                               "and judged against the exact rational value (and the exact derivative with respect to x and y whenever no exponent depends on "
                               "the variable, a Richardson finite difference otherwise); the 28 documented unary and 4 binary "
                               "functions and power<N> on 4 arguments in and out of their domains, 50 compositions f(g(.)), derivatives with respect to "
-                              "x and y; 35 malformed formulas; "
+                              "x and y; 35 malformed formulas; conditional and logical expressions: every comparison (< <= > >= ==) of 12 operands, every "
+                              "conjunction / disjunction / negation of 6 representative comparisons, every three-operand mix of && and || with and without "
+                              "parentheses, alone and inside an arithmetic expression, each printed with minimal and with full parentheses; "
                               "non-trivial = contains an operator or a function",
                          nontrivial=lambda c: c["kind"] != "arith" or c["tree"]["t"] not in ("num", "var"),
                          sig=lambda f, b: f, keep=keep,
                          assumptions=["function values are compared with the C library function of the documented name (4 ulp), not with exact values",
                                       "function derivatives (and derivatives of powers whose exponent depends on the variable) are compared with a Richardson finite difference of the evaluator's own values (1e-6)",
-                                      "getCxxFormula, resolveDependencies and parameter rewriting are not covered"])
+                                      "getCxxFormula, resolveDependencies, parameter rewriting and physical constants are not covered",
+                                      "'!' is only generated in front of a parenthesised logical expression; '!=' is not part of the language (refused)"])
